@@ -798,7 +798,37 @@ fn rebuild(pf: &ShuffleProof<C>, f: impl FnOnce(&mut Commitments<C>, &mut [X; 4]
 fn shuffle(r: &mut R, prop: &str) {
     let quick = r.h.tier == Tier::Quick;
     let ctx = r.ctx.clone();
-    if prop == "C03" {
+    if prop == "C03" || prop == "C12" {
+        // SCALE (implementation only): vectors of 4097 / 70001 items through the wire types; C03: a shuffle of 4097
+        // (thorough 16385) ciphertexts proves and verifies
+        let key = PrivateKey::from(&ctx.rnd_exp(), &ctx);
+        let pk = key.get_pk();
+        for nn in if quick { vec![4097usize] } else { vec![4097, 16385] } {
+            let es: Vec<Ciphertext<C>> = (0..nn).map(|_| pk.encrypt(&ctx.rnd())).collect();
+            if prop == "C12" {
+                let bytes = StrandVectorC(es.clone()).strand_serialize().unwrap();
+                let mut want = (nn as u32).to_le_bytes().to_vec();
+                for c in &es {
+                    let bs = c.strand_serialize().unwrap();
+                    want.extend((bs.len() as u32).to_le_bytes());
+                    want.extend(bs);
+                }
+                r.h.check(bytes == want, || format!("StrandVectorC of {} items on R255 is not count || framed items in order", nn));
+                r.h.check(StrandVectorC::<C>::strand_deserialize(&bytes).map(|x| x.0 == es).unwrap_or(false), || format!("StrandVectorC of {} items does not round-trip on R255", nn));
+                let xs: Vec<X> = (0..(if quick { 70001 } else { 150000 })).map(|_| ctx.rnd_exp()).collect();
+                let bx = StrandVectorX::<C>(xs.clone()).strand_serialize().unwrap();
+                r.h.check(StrandVectorX::<C>::strand_deserialize(&bx).map(|x| x.0 == xs).unwrap_or(false), || format!("StrandVectorX of {} items does not round-trip on R255", xs.len()));
+                continue;
+            }
+            let gens = ctx.generators(nn + 1, b"scale");
+            let sh = Shuffler::new(&pk, &gens, &ctx);
+            let (eps, rs, perm) = sh.gen_shuffle(&es);
+            let ok = sh.gen_proof(&es, &eps, &rs, &perm, b"s").ok().map(|pf| sh.check_proof(&pf, &es, &eps, b"s").unwrap_or(false)).unwrap_or(false);
+            r.h.check(ok, || format!("honest shuffle proof for N = {} rejected on R255", nn));
+        }
+        if prop == "C12" {
+            return;
+        }
         // sequences over reused buffers, verified by an independent verifier (see p_shuffle::run_c03)
         let nn = 3;
         let s = setup(r, nn, b"reuse");
@@ -1188,6 +1218,27 @@ fn c16_c17(r: &mut R, prop: &str) {
                 }
             }
         }
+        // SCALE (implementation only): long lists and long seeds against the documented derivation recomputed here
+        // (SHAKE-256 over the seed, 64 output bytes per point, from_uniform_bytes)
+        for (size, seed_len) in if quick { vec![(4097usize, 5usize), (70001, 0), (3, 70000)] } else { vec![(4097, 5), (16385, 1), (70001, 0), (150000, 9), (3, 70000), (3, 1 << 20)] } {
+            use sha3::digest::{ExtendableOutput, Update, XofReader};
+            let seed = r.h.rng.bytes(seed_len);
+            let gs = ctx.generators(size, &seed);
+            let mut shake = sha3::Shake256::default();
+            shake.update(&seed);
+            let mut reader = shake.finalize_xof();
+            let mut bad = None;
+            for (i, gpt) in gs.iter().enumerate() {
+                let mut u = [0u8; 64];
+                reader.read(&mut u);
+                let want = curve25519_dalek::ristretto::RistrettoPoint::from_uniform_bytes(&u).compress().to_bytes().to_vec();
+                if eb(gpt) != want {
+                    bad = Some(i + 1);
+                    break;
+                }
+            }
+            r.h.check(gs.len() == size && bad.is_none(), || format!("generators({}) for a {}-byte seed on R255: {} elements, the first that differs from the documented derivation is number {:?}", size, seed_len, gs.len(), bad));
+        }
         return;
     }
     for i in 0..(if quick { 5 } else { 30 }) {
@@ -1446,7 +1497,11 @@ pub fn run(h: &mut Harness) {
         "C07" | "C08" => c07_c08(&mut r),
         "C09" | "C10" => c09_c10(&mut r),
         "C02" | "C03" | "C04" => shuffle(&mut r, &prop),
-        "C11" | "C12" | "C13" => wire(&mut r, &prop),
+        "C11" | "C13" => wire(&mut r, &prop),
+        "C12" => {
+            wire(&mut r, &prop);
+            shuffle(&mut r, &prop); // only its SCALE part runs for C12
+        }
         "C14" => c14(&mut r),
         "C16" | "C17" => c16_c17(&mut r, &prop),
         "C18" => c18(&mut r),
